@@ -282,7 +282,7 @@ def _rel_ens(c):
 
 REG.contract('Cluster.release_batch_resources', params={'observation': 'str'}, fix={'c': 'default'}, ensures=_rel_ens,
              modifies=['self._resources.available', 'self._resources.idle', 'self.num_provisioned_obs'],
-             props=['C02', 'C09'])
+             props=['C02', 'C09', 'C12', 'C04'])
 
 REG.contract('Cluster.clean_up_ingest', fix={'c': 'default'},
              ensures=lambda c: [('status-cleared', z3.Not(c.n.self._ingest['status'].t))],
@@ -296,7 +296,7 @@ REG.contract('Cluster.__init__', params={'env': 'env', 'config': 'obj:Config'},
              ensures=lambda c: [('C02-all-machines-available', z3.And(same_list(CV(c.n.self).av, CV(c.n.self).M),
                                                                      CV(c.n.self).ing.n == 0, CV(c.n.self).occ.n == 0,
                                                                      CV(c.n.self).idle.nk == 0))],
-             invariants='post', modifies=['*'], props=['C02'])
+             invariants='post', modifies=['*'], props=['C02', 'C12'])
 
 
 # ================================================================================================ generators
@@ -409,7 +409,7 @@ REG.contract('Cluster.allocate_task_to_cluster',
              raises={'RuntimeError': dict(when=lambda c: z3.Not(_atc_accept(c)))},
              modifies=RES + ['self._tasks.running', 'self._tasks.finished', 'self._usage_data.available', 'self._usage_data.running_tasks',
                              'self._usage_data.ingest', 'self._usage_data.finished_tasks', 'heap:Task.task_status', 'heap:Task.delay_flag'],
-             props=['C01', 'C02', 'C04', 'C09'])
+             props=['C01', 'C02', 'C04', 'C09', 'C12'])
 
 
 # ---------------------------------------------------------------------------------------------- provision_batch_resources
@@ -465,7 +465,7 @@ def _pbr_ens(c):
 REG.contract('Cluster.provision_batch_resources', params={'size': 'int', 'name': 'str'}, fix={'c': 'default'},
              ensures=_pbr_ens, result='bool', raises={'IndexError': dict(when=lambda c: z3.And(c.o.size.t > 0, CV(c.o.self).av.n == 0))},
              modifies=['self._resources.available', 'self._resources.idle', 'self.num_provisioned_obs'],
-             props=['C02', 'C09'])
+             props=['C02', 'C09', 'C12'])
 REG.loop('Cluster.provision_batch_resources', 0, inv=_pbr_inv, modifies_locals=['m'],
          modifies=['self._resources.available', 'self._resources.idle'], props=['C02', 'C09'])
 
@@ -613,7 +613,7 @@ REG.contract('Cluster.provision_ingest_resources', params={'demand': 'int', 'obs
              raises={'RuntimeError': dict(when=lambda c: c.o.demand.t > z3.ToReal(CV(c.o.self).av.n))},
              modifies=['self._resources.available', 'self._resources.ingest', 'self._ingest.status', 'self._ingest.demand',
                        'ghost:alloc'] + ['heap:Task.' + f for f in TASK_FIELDS],
-             props=['C08', 'C01', 'C02'])
+             props=['C08', 'C01', 'C02', 'C12'])
 REG.loop('Cluster.provision_ingest_resources', 0, inv=_pir_inv0, modifies_locals=['i', 'machine'], modifies=['pairs'],
          elem_types={'pairs': 'pair:Machine,Task'},
          props=['C08', 'C01'])
